@@ -168,7 +168,6 @@ func tableOpts(v int) []string {
 	return o
 }
 
-
 // withHookMonitor runs f with the process-wide LALR invariant monitor installed: every
 // lalr.Compile performed inside (through compiler.Compile) is judged by the C03-C06
 // table-level monitors as well (reference LALR(1) cells for small grammars, bisimulation
